@@ -44,6 +44,7 @@ def gen(rng, tier):
             data['plist'] = extra[:j] + [ps] + extra[j:]
             data['j'] = j
         out.append(Case(k, line, data))
+    turn = {}
     for _ in range(25 if tier == 'quick' else 300):
         r = rng.random()
         ar = rng.random() < .2      # un-normalised knot ranges hit the recorded finding F-01
@@ -65,6 +66,8 @@ def gen(rng, tier):
         if rng.random() < .5:
             first = list(sizes)
             k = rng.randrange(len(sizes))
+            turn[len(sizes)] = turn.get(len(sizes), 0) + 1
+            k = turn[len(sizes)] % len(sizes)          # every direction in turn (a setter of ONE direction that forgets to reset)
             first[k] = sizes[k] + 1 if sizes[k] < hi else sizes[k] - 1
             if first[k] < 2 or (S.dirs(d)[k][1][S.dirs(d)[k][2]] - S.dirs(d)[k][1][S.dirs(d)[k][0]]) / first[k] >= 1:
                 first = None
